@@ -34,6 +34,15 @@ type CallsiteSpec struct {
 	Assert Clause
 }
 
+// InvokeSpec: the function may call the function value Fn (exactly once when When holds, else not
+// at all). If the value is a closure of the calling function that has a contract, the caller
+// accounts for the closure's writes to its captured variables and learns its postcondition.
+type InvokeSpec struct {
+	Fn   SExpr
+	When SExpr
+	Src  string
+}
+
 type Case struct {
 	Guard      SExpr
 	GuardText  string
@@ -55,6 +64,7 @@ type Contract struct {
 	// HasAssigns: an assigns clause was given (possibly empty = assigns nothing)
 	HasAssigns bool
 	Loops      map[string]*LoopSpec
+	Invokes    []InvokeSpec
 	Callsites  []CallsiteSpec
 	Asserts    []Clause
 	Kind       string // "" (verified) | trusted | assumed | model | inline | extern-verified
@@ -124,7 +134,7 @@ var clauseKeywords = map[string]bool{
 	"func": true, "ghost": true, "spec": true, "axiom": true, "arith": true, "requires": true, "ensures": true,
 	"assigns": true, "loop": true, "callsite": true, "trusted": true, "assumed": true, "inline": true, "pure": true,
 	"noreturn": true, "model": true, "safety": true, "case": true, "props": true, "assert": true, "verified-external": true,
-	"params": true, "endcase": true, "global": true, "abstracts": true, "lemma": true, "assume": true, "overflow": true, "macro": true, "nilsafe": true,
+	"params": true, "endcase": true, "global": true, "abstracts": true, "lemma": true, "assume": true, "overflow": true, "macro": true, "nilsafe": true, "invokes": true,
 }
 
 // LoadSpecs reads every contract source: //@ lines of zz_contracts_verif.go files
@@ -493,6 +503,21 @@ func (sp *Specs) loadFile(path string, goFile bool) error {
 			case "trusted", "assumed", "model", "inline", "verified-external":
 				cur.Kind = kw
 				cur.Why = strings.Trim(strings.TrimSpace(rest), "\"")
+			case "invokes":
+				// invokes <expr> when <cond>
+				i := strings.Index(rest, " when ")
+				if i < 0 {
+					return fail(fmt.Errorf("invokes <expr> when <cond>"))
+				}
+				fe, err := ParseSpec(rest[:i])
+				if err != nil {
+					return fail(err)
+				}
+				we, err := ParseSpec(rest[i+6:])
+				if err != nil {
+					return fail(err)
+				}
+				cur.Invokes = append(cur.Invokes, InvokeSpec{Fn: fe, When: we, Src: src})
 			case "nilsafe":
 				cur.NilSafe = true
 			case "noreturn":
